@@ -62,7 +62,9 @@ LinearParams == {[slope |-> 2, icpt |-> 0], [slope |-> -1, icpt |-> 5], [slope |
 PolyParams == {<<>>, <<7>>, <<0, 1>>, <<1, 0, 2>>, <<-1, 2, 0, 1>>}
 \* table: points (input, output) with integer slopes; listed increasing or decreasing
 TableParams == {[ins |-> <<0, 2, 4>>, outs |-> <<10, 20, 40>>], [ins |-> <<4, 2, 0>>, outs |-> <<40, 20, 10>>],
-                [ins |-> <<-2, 1>>, outs |-> <<6, 0>>]}
+                [ins |-> <<-2, 1>>, outs |-> <<6, 0>>],
+                \* outputs need not be monotonic: a plateau (saturating sensor) and a fold-back
+                [ins |-> <<0, 2, 4>>, outs |-> <<10, 10, 30>>], [ins |-> <<0, 2, 4>>, outs |-> <<10, 30, 20>>]}
 SensorKinds == {"RTD", "Thermocouple", "Thermistor", "Strain"}
 
 Scales(i) ==   \* the scales that may stand at 0-based position i
